@@ -18,6 +18,12 @@ package connectconformance
 //              reported code being the primary one / each alternative; every
 //              leniency and every deviation above is applied on top and must
 //              keep its verdict (an allowed alternative waives the code only);
+//   composed   every ordered pair of leniency rewrites of one E (first A, then B
+//              applied to the result of A) passes (c03LeniencyPairs);
+//   unknown    fields unknown to the schema, in front of / behind / inside every
+//              nested message of an echoed request, are a deviation of that request;
+//              expectations whose requests carry such fields themselves
+//              (c03UnknownEdits, c03UnknownFamily);
 //   history    two assertions in one process: the verdict of the second one is
 //              the verdict it gets in a fresh state (c03History*).
 //
@@ -38,6 +44,7 @@ import (
 	"sort"
 	"strconv"
 	"strings"
+	"sync"
 	"testing"
 	"time"
 
@@ -45,7 +52,9 @@ import (
 	conformancev1 "connectrpc.com/conformance/internal/gen/proto/go/connectrpc/conformance/v1"
 	"connectrpc.com/conformance/internal/verif/rep"
 	"google.golang.org/protobuf/encoding/protojson"
+	"google.golang.org/protobuf/encoding/protowire"
 	"google.golang.org/protobuf/proto"
+	"google.golang.org/protobuf/reflect/protoreflect"
 	"google.golang.org/protobuf/types/known/anypb"
 )
 
@@ -57,6 +66,9 @@ type c03Expected struct {
 	ID     string // stable identity (replay)
 	Source string // corpus permutation name or "grammar"
 	Def    *conformancev1.TestCase
+	// composed leniencies (c03LeniencyPairs) in the quick / in the thorough tier: 0 none, 1 the
+	// representative pairs, 2 every ordered pair
+	PairQuick, PairFull int
 }
 
 const c03BigData = 4096 // bytes fields above this size are the padding of size-limit cases
@@ -120,7 +132,7 @@ func c03LoadCorpus() ([]*c03Expected, map[string]int64, error) {
 			if _, ok := byKey[key]; ok {
 				continue
 			}
-			byKey[key] = &c03Expected{ID: "corpus:" + key, Source: name, Def: tc}
+			byKey[key] = &c03Expected{ID: "corpus:" + key, Source: name, Def: tc, PairQuick: 1, PairFull: 2}
 		}
 	}
 	keys := make([]string, 0, len(byKey))
@@ -173,6 +185,17 @@ func c03ShapeKey(tc *conformancev1.TestCase) string {
 	h.Write(b)
 	return hex.EncodeToString(h.Sum(nil))[:16]
 }
+
+// c03Full: the thorough tier, and a replay (which looks its case up in the largest enumeration)
+func c03Full() bool {
+	c03FullOnce.Do(func() { c03FullVal = rep.Thorough() || rep.ReplayInput() != nil })
+	return c03FullVal
+}
+
+var (
+	c03FullOnce sync.Once
+	c03FullVal  bool
+)
 
 func c03IsBig(tc *conformancev1.TestCase) bool {
 	return proto.Size(tc.ExpectedResponse) > 16*c03BigData
@@ -400,7 +423,19 @@ func c03Grammar(full bool) []*c03Expected {
 				for i, d := range c03GrammarDims {
 					parts[i] = fmt.Sprintf("%s=%d", d.name, c[i])
 				}
-				items = append(items, item{&c03Expected{ID: "grammar:" + strings.Join(parts, ","), Source: "grammar", Def: def}, nonBase, ord})
+				// composed leniencies: quick tier on the simplest expectations and the merged-metadata family
+				// (thorough: every pair up to two non-base coordinates, representatives with three, none beyond)
+				pairQuick, pairFull := 0, 0
+				switch {
+				case nonBase <= 2 || mergedFamily:
+					pairFull = 2
+				case nonBase == 3:
+					pairFull = 1
+				}
+				if nonBase <= 1 || mergedFamily {
+					pairQuick = 1
+				}
+				items = append(items, item{&c03Expected{ID: "grammar:" + strings.Join(parts, ","), Source: "grammar", Def: def, PairQuick: pairQuick, PairFull: pairFull}, nonBase, ord})
 			}
 		}
 		ord++
@@ -755,24 +790,34 @@ func c03HeaderMutations(add c03Adder, hs c03HdrSet) {
 	for _, h := range orig {
 		names[strings.ToLower(h.Name)]++
 	}
+	// (the rewrites are written against the block as it is when they are applied, so that two of them
+	// can be composed: an entry that is not there any more - the other rewrite moved the block - is left alone)
 	entry := func(i int, f func(h *conformancev1.Header)) func(a *c03Result) {
 		return func(a *c03Result) {
-			hs.edit(a, func(cur c03Headers) c03Headers { f(cur[i]); return cur })
+			hs.edit(a, func(cur c03Headers) c03Headers {
+				if i < len(cur) {
+					f(cur[i])
+				}
+				return cur
+			})
 		}
 	}
 	if hs.lenient {
 		// L: header-name case
 		for i, h := range orig {
 			seen := map[string]bool{h.Name: true}
-			for _, v := range []struct{ how, name string }{
-				{"upper", strings.ToUpper(h.Name)}, {"lower", strings.ToLower(h.Name)}, {"alternating", c03AltCase(h.Name)},
+			for _, v := range []struct {
+				how string
+				f   func(string) string
+			}{
+				{"upper", strings.ToUpper}, {"lower", strings.ToLower}, {"alternating", c03AltCase},
 			} {
-				if seen[v.name] {
+				if seen[v.f(h.Name)] {
 					continue
 				}
-				seen[v.name] = true
-				name := v.name
-				add("leniency", hs.class+"-case", pf("%s[%d]", hs.label, i), v.how, nil, entry(i, func(h *conformancev1.Header) { h.Name = name }))
+				seen[v.f(h.Name)] = true
+				recase := v.f
+				add("leniency", hs.class+"-case", pf("%s[%d]", hs.label, i), v.how, nil, entry(i, func(h *conformancev1.Header) { h.Name = recase(h.Name) }))
 			}
 		}
 		// L: extra metadata, at every insertion point
@@ -789,6 +834,7 @@ func c03HeaderMutations(add c03Adder, hs c03HdrSet) {
 				vals := v.vals
 				add("leniency", hs.class+"-extra", pf("%s@%d", hs.label, at), v.how, nil, func(a *c03Result) {
 					hs.edit(a, func(cur c03Headers) c03Headers {
+						at := min(at, len(cur))
 						out := append(c03Headers{}, cur[:at]...)
 						out = append(out, c03Hdr(extra, vals...))
 						return append(out, cur[at:]...)
@@ -805,12 +851,17 @@ func c03HeaderMutations(add c03Adder, hs c03HdrSet) {
 				for _, sep := range []struct{ how, sep string }{{"comma", ","}, {"comma-space", ", "}} {
 					sep := sep
 					add("leniency", hs.class+"-values-joined", pf("%s[%d]", hs.label, i), "all:"+sep.how, nil, entry(i, func(h *conformancev1.Header) {
-						h.Value = []string{strings.Join(h.Value, sep.sep)}
+						if _, ok := c03Pieces(h.Value); ok && len(h.Value) >= 2 {
+							h.Value = []string{strings.Join(h.Value, sep.sep)}
+						}
 					}))
 					if len(h.Value) >= 3 {
 						for n := 0; n+1 < len(h.Value); n++ {
 							n := n
 							add("leniency", hs.class+"-values-joined", pf("%s[%d].value[%d,%d]", hs.label, i, n, n+1), "pair:"+sep.how, nil, entry(i, func(h *conformancev1.Header) {
+								if _, ok := c03Pieces(h.Value); !ok || n+1 >= len(h.Value) {
+									return
+								}
 								out := append([]string{}, h.Value[:n]...)
 								out = append(out, h.Value[n]+sep.sep+h.Value[n+1])
 								h.Value = append(out, h.Value[n+2:]...)
@@ -825,6 +876,9 @@ func c03HeaderMutations(add c03Adder, hs c03HdrSet) {
 					continue
 				}
 				add("leniency", hs.class+"-value-split", pf("%s[%d].value[%d]", hs.label, i, n), "", nil, entry(i, func(h *conformancev1.Header) {
+					if _, ok := c03Pieces(h.Value); !ok || n >= len(h.Value) {
+						return
+					}
 					pieces, _ := c03Pieces([]string{h.Value[n]})
 					out := append([]string{}, h.Value[:n]...)
 					out = append(out, pieces...)
@@ -887,6 +941,7 @@ type c03InfoAcc struct {
 	label      string
 	exp        *c03Info
 	headerInfo bool // request headers, timeout and query params are echoed here (first response / error detail)
+	full       bool // thorough tier: every variant of the unknown-field deviations
 	with       func(a *c03Result, f func(ri *c03Info))
 }
 
@@ -929,6 +984,13 @@ func c03InfoMutations(add c03Adder, acc c03InfoAcc) {
 		c03ByteEdits(len(q.Value), func(variant string, f func(d []byte) []byte) {
 			alter(variant, func(q *anypb.Any) { q.Value = f(append([]byte{}, q.Value...)) })
 		})
+		if len(q.Value) <= 100_000 { // (not the padded requests of the size-limit cases)
+			c03UnknownEdits(q, acc.full, func(variant string, f func(q *anypb.Any)) {
+				add("deviation", "echoed-request-unknown-field", qpos, variant, reqTok, func(a *c03Result) {
+					acc.with(a, func(ri *c03Info) { f(ri.Requests[k]) })
+				})
+			})
+		}
 		for m := k + 1; m < nReq; m++ {
 			m := m
 			if proto.Equal(q, info.Requests[m]) {
@@ -1186,7 +1248,7 @@ func c03Mutations(def *conformancev1.TestCase) []c03Mut {
 			info := &c03Info{}
 			if d.TypeUrl == c03InfoTypeURL && proto.Unmarshal(d.Value, info) == nil {
 				// the echoed request info of an RPC that ended in an error
-				c03InfoMutations(add, c03InfoAcc{label: dpos + "<RequestInfo>", exp: info, headerInfo: true,
+				c03InfoMutations(add, c03InfoAcc{label: dpos + "<RequestInfo>", exp: info, headerInfo: true, full: c03Full(),
 					with: func(a *c03Result, f func(ri *c03Info)) {
 						det := a.Error.Details[n]
 						ri := &c03Info{}
@@ -1258,7 +1320,7 @@ func c03Mutations(def *conformancev1.TestCase) []c03Mut {
 			})
 		}
 		if p.RequestInfo != nil {
-			c03InfoMutations(add, c03InfoAcc{label: pos + ".request_info", exp: p.RequestInfo, headerInfo: n == 0,
+			c03InfoMutations(add, c03InfoAcc{label: pos + ".request_info", exp: p.RequestInfo, headerInfo: n == 0, full: c03Full(),
 				with: func(a *c03Result, f func(ri *c03Info)) { f(a.Payloads[n].RequestInfo) }})
 		}
 	}
@@ -1295,6 +1357,316 @@ func c03Mutations(def *conformancev1.TestCase) []c03Mut {
 		add("leniency", "unsent-request-count", "num_unsent_requests", "zero", nil, func(a *c03Result) { a.NumUnsentRequests = 0 })
 	}
 	return muts
+}
+
+// ---------------------------------------------------------------------------
+// leniencies composed
+// ---------------------------------------------------------------------------
+//
+// The statement's leniencies are independent of one another: a result that
+// agrees with the expected one up to leniency A is a result that passes, and
+// applying leniency B to it gives again a result that agrees up to documented
+// leniencies. So every ordered pair (A applied first, then B) of the leniency
+// rewrites of an expected result must pass - e.g. "all metadata reported as
+// headers" and then "one unrelated trailer", "name in another case" and then
+// "values joined", "alternative code" and then "any message". Two rewrites with
+// the same kind at the same position only override one another and are not paired.
+
+var c03Digits = strings.NewReplacer("0", "#", "1", "#", "2", "#", "3", "#", "4", "#", "5", "#", "6", "#", "7", "#", "8", "#", "9", "#")
+
+// c03LeniencyPairs: level 2 = every ordered pair; level 1 = ordered pairs of representatives: per
+// (kind, block of the result) the first position with its first variant and the last position with
+// its last variant.
+func c03LeniencyPairs(muts []c03Mut, level int) []c03Mut {
+	if level <= 0 {
+		return nil
+	}
+	var len_ []int
+	for i := range muts {
+		if muts[i].Class == "leniency" {
+			len_ = append(len_, i)
+		}
+	}
+	if level == 1 {
+		first, last := map[string]int{}, map[string]int{}
+		var order []string
+		for _, i := range len_ {
+			key := muts[i].Kind + "|" + c03Digits.Replace(muts[i].Pos)
+			if _, ok := first[key]; !ok {
+				first[key] = i
+				order = append(order, key)
+			}
+			last[key] = i
+		}
+		len_ = len_[:0]
+		for _, key := range order {
+			len_ = append(len_, first[key])
+			if last[key] != first[key] {
+				len_ = append(len_, last[key])
+			}
+		}
+	}
+	var out []c03Mut
+	for _, ia := range len_ {
+		for _, ib := range len_ {
+			a, b := &muts[ia], &muts[ib]
+			if ia == ib || a.Kind == b.Kind && a.Pos == b.Pos {
+				continue
+			}
+			out = append(out, c03Mut{
+				Class: "leniency", Kind: a.Kind + "&" + b.Kind, Pos: a.Pos + " & " + b.Pos, Variant: a.Variant + " & " + b.Variant,
+				apply: func(r *c03Result) { a.apply(r); b.apply(r) },
+			})
+		}
+	}
+	return out
+}
+
+// ---------------------------------------------------------------------------
+// fields unknown to the schema
+// ---------------------------------------------------------------------------
+//
+// The protobuf wire format keeps fields the reader's schema does not know and
+// re-emits them; an echoed request that has such a field where the request sent
+// has none (or lacks one that was sent, or has another value in it) is not the
+// request that was sent. Places: in front of / behind the serialized message,
+// and inside every nested message of it.
+
+func c03UnknownWire(how string) []byte {
+	switch how {
+	case "varint":
+		return protowire.AppendVarint(protowire.AppendTag(nil, 1000, protowire.VarintType), 1)
+	case "bytes":
+		return protowire.AppendBytes(protowire.AppendTag(nil, 1001, protowire.BytesType), []byte("extra"))
+	case "fixed32":
+		return protowire.AppendFixed32(protowire.AppendTag(nil, 1002, protowire.Fixed32Type), 7)
+	case "fixed64":
+		return protowire.AppendFixed64(protowire.AppendTag(nil, 1003, protowire.Fixed64Type), 7)
+	case "zero-varint":
+		return protowire.AppendVarint(protowire.AppendTag(nil, 1000, protowire.VarintType), 0)
+	}
+	panic(how)
+}
+
+// c03NestedPaths: the populated message-typed fields of m (elements of repeated ones too), depth first,
+// fields in schema order.
+func c03NestedPaths(m protoreflect.Message, prefix string, out *[]string) {
+	fields := m.Descriptor().Fields()
+	for i := 0; i < fields.Len(); i++ {
+		fd := fields.Get(i)
+		if fd.Message() == nil || fd.IsMap() || !m.Has(fd) {
+			continue
+		}
+		if fd.IsList() {
+			l := m.Get(fd).List()
+			for k := 0; k < l.Len(); k++ {
+				path := fmt.Sprintf("%s%s[%d]", prefix, fd.Name(), k)
+				*out = append(*out, path)
+				c03NestedPaths(l.Get(k).Message(), path+".", out)
+			}
+			continue
+		}
+		path := prefix + string(fd.Name())
+		*out = append(*out, path)
+		c03NestedPaths(m.Get(fd).Message(), path+".", out)
+	}
+}
+
+func c03AtPath(m protoreflect.Message, path string) protoreflect.Message {
+	if path == "" {
+		return m
+	}
+	for _, step := range strings.Split(path, ".") {
+		name, idx := step, -1
+		if i := strings.IndexByte(step, '['); i >= 0 {
+			name = step[:i]
+			idx, _ = strconv.Atoi(strings.TrimSuffix(step[i+1:], "]"))
+		}
+		fd := m.Descriptor().Fields().ByName(protoreflect.Name(name))
+		if fd == nil || !m.Has(fd) {
+			return nil
+		}
+		if idx >= 0 {
+			l := m.Mutable(fd).List()
+			if idx >= l.Len() {
+				return nil
+			}
+			m = l.Get(idx).Message()
+		} else {
+			m = m.Mutable(fd).Message()
+		}
+	}
+	return m
+}
+
+// c03HasUnknown / c03StripUnknown: over the whole tree of messages
+func c03HasUnknown(m protoreflect.Message) bool {
+	if len(m.GetUnknown()) > 0 {
+		return true
+	}
+	var paths []string
+	c03NestedPaths(m, "", &paths)
+	for _, p := range paths {
+		if sub := c03AtPath(m, p); sub != nil && len(sub.GetUnknown()) > 0 {
+			return true
+		}
+	}
+	return false
+}
+
+func c03StripUnknown(m protoreflect.Message) {
+	m.SetUnknown(nil)
+	var paths []string
+	c03NestedPaths(m, "", &paths)
+	for _, p := range paths {
+		if sub := c03AtPath(m, p); sub != nil {
+			sub.SetUnknown(nil)
+		}
+	}
+}
+
+// c03EditAny: decode the value of q with the linked-in schema, edit, encode again.
+func c03EditAny(q *anypb.Any, f func(m protoreflect.Message)) {
+	msg, err := anypb.UnmarshalNew(q, proto.UnmarshalOptions{})
+	if err != nil {
+		return
+	}
+	f(msg.ProtoReflect())
+	b, err := proto.MarshalOptions{Deterministic: true}.Marshal(msg)
+	if err != nil {
+		panic(err)
+	}
+	q.Value = b
+}
+
+// c03UnknownEdits: the deviations of one serialized message (an Any) in its unknown fields.
+func c03UnknownEdits(q *anypb.Any, full bool, add func(variant string, f func(q *anypb.Any))) {
+	kinds := []string{"bytes", "fixed32"}
+	if full {
+		kinds = []string{"bytes", "fixed32", "fixed64", "zero-varint"}
+	}
+	for _, how := range kinds { // (the varint field behind the message is the older variant "append-unknown-field")
+		field := c03UnknownWire(how)
+		add("behind:"+how, func(q *anypb.Any) { q.Value = c03Extend(q.Value, field) })
+	}
+	add("in-front:varint", func(q *anypb.Any) { q.Value = c03Extend(c03UnknownWire("varint"), q.Value) })
+	msg, err := anypb.UnmarshalNew(q, proto.UnmarshalOptions{})
+	if err != nil {
+		return // a type that is not linked in: only the serialized form can be edited
+	}
+	var paths []string
+	c03NestedPaths(msg.ProtoReflect(), "", &paths)
+	for n, path := range paths {
+		if !full && n >= 2 && n != len(paths)-1 {
+			continue // quick tier: the first two nested messages and the last one
+		}
+		how := []string{"bytes", "varint", "fixed64"}[n%3]
+		add("nested:"+path+":"+how, func(q *anypb.Any) {
+			c03EditAny(q, func(m protoreflect.Message) {
+				if sub := c03AtPath(m, path); sub != nil {
+					sub.SetUnknown(append(append(protoreflect.RawFields{}, sub.GetUnknown()...), c03UnknownWire(how)...))
+				}
+			})
+		})
+	}
+	if c03HasUnknown(msg.ProtoReflect()) {
+		// the request sent has unknown fields: an echo without them
+		add("all-dropped", func(q *anypb.Any) { c03EditAny(q, c03StripUnknown) })
+		for _, path := range append([]string{""}, paths...) {
+			sub := c03AtPath(msg.ProtoReflect(), path)
+			if sub == nil || len(sub.GetUnknown()) == 0 {
+				continue
+			}
+			where := path
+			if where == "" {
+				where = "<top>"
+			}
+			add("dropped-at:"+where, func(q *anypb.Any) {
+				c03EditAny(q, func(m protoreflect.Message) {
+					if sub := c03AtPath(m, path); sub != nil {
+						sub.SetUnknown(nil)
+					}
+				})
+			})
+		}
+	}
+}
+
+// c03UnknownFamily: expectations whose echoed requests carry unknown fields themselves (at the top, in
+// nested messages), echoed in the payload of a unary response, in every payload of a stream and in the
+// RequestInfo detail of an error.
+func c03UnknownFamily() []*c03Expected {
+	mkAny := func(m proto.Message) *anypb.Any {
+		b, err := proto.MarshalOptions{Deterministic: true}.Marshal(m)
+		if err != nil {
+			panic(err)
+		}
+		return &anypb.Any{TypeUrl: "type.googleapis.com/" + string(m.ProtoReflect().Descriptor().FullName()), Value: b}
+	}
+	unary := func(top, def, hdr string) *anypb.Any {
+		m := &conformancev1.UnaryRequest{
+			ResponseDefinition: &conformancev1.UnaryResponseDefinition{
+				ResponseHeaders: c03Headers{c03Hdr("x-custom-header", "foo")},
+				Response:        &conformancev1.UnaryResponseDefinition_ResponseData{ResponseData: []byte("test response")},
+			},
+			RequestData: []byte("test request"),
+		}
+		if top != "" {
+			m.ProtoReflect().SetUnknown(c03UnknownWire(top))
+		}
+		if def != "" {
+			m.ResponseDefinition.ProtoReflect().SetUnknown(c03UnknownWire(def))
+		}
+		if hdr != "" {
+			m.ResponseDefinition.ResponseHeaders[0].ProtoReflect().SetUnknown(c03UnknownWire(hdr))
+		}
+		return mkAny(m)
+	}
+	bidi := func(i int, top, def string) *anypb.Any {
+		m := &conformancev1.BidiStreamRequest{RequestData: []byte(fmt.Sprintf("request-%d", i))}
+		if i == 0 {
+			m.FullDuplex = true
+			m.ResponseDefinition = &conformancev1.StreamResponseDefinition{ResponseData: [][]byte{[]byte("data-0"), []byte("data-1"), []byte("data-2")}}
+			if def != "" {
+				m.ResponseDefinition.ProtoReflect().SetUnknown(c03UnknownWire(def))
+			}
+		}
+		if top != "" {
+			m.ProtoReflect().SetUnknown(c03UnknownWire(top))
+		}
+		return mkAny(m)
+	}
+	infoDetail := func(info *c03Info) *anypb.Any { return mkAny(info) }
+	unarySt, clientSt, fullSt := conformancev1.StreamType_STREAM_TYPE_UNARY, conformancev1.StreamType_STREAM_TYPE_CLIENT_STREAM, conformancev1.StreamType_STREAM_TYPE_FULL_DUPLEX_BIDI_STREAM
+	payload := func(i int, reqs ...*anypb.Any) *conformancev1.ConformancePayload {
+		return &conformancev1.ConformancePayload{Data: []byte(fmt.Sprintf("data-%d", i)), RequestInfo: &c03Info{Requests: reqs}}
+	}
+	type shape struct {
+		name string
+		st   conformancev1.StreamType
+		exp  *c03Result
+	}
+	shapes := []shape{
+		{"unary-plain", unarySt, &c03Result{Payloads: []*conformancev1.ConformancePayload{payload(0, unary("", "", ""))}}},
+		{"unary-top", unarySt, &c03Result{Payloads: []*conformancev1.ConformancePayload{payload(0, unary("varint", "", ""))}}},
+		{"unary-nested", unarySt, &c03Result{Payloads: []*conformancev1.ConformancePayload{payload(0, unary("", "bytes", "fixed32"))}}},
+		{"unary-error-detail", unarySt, &c03Result{Error: &conformancev1.Error{Code: conformancev1.Code_CODE_INTERNAL, Message: proto.String("unary failed"),
+			Details: []*anypb.Any{infoDetail(&c03Info{Requests: []*anypb.Any{unary("bytes", "varint", "")}})}}}},
+		{"unary-error-detail-plain", unarySt, &c03Result{Error: &conformancev1.Error{Code: conformancev1.Code_CODE_INTERNAL, Message: proto.String("unary failed"),
+			Details: []*anypb.Any{infoDetail(&c03Info{Requests: []*anypb.Any{unary("", "", "")}})}}}},
+		{"client-stream-error-detail", clientSt, &c03Result{Error: &conformancev1.Error{Code: conformancev1.Code_CODE_ABORTED,
+			Details: []*anypb.Any{infoDetail(&c03Info{Requests: []*anypb.Any{bidi(1, "", ""), bidi(2, "fixed64", "")}})}}}},
+		{"full-duplex-x3", fullSt, &c03Result{Payloads: []*conformancev1.ConformancePayload{
+			payload(0, bidi(0, "varint", "bytes")), payload(1, bidi(1, "bytes", "")), payload(2, bidi(2, "zero-varint", ""))}}},
+		{"full-duplex-x3-plain", fullSt, &c03Result{Payloads: []*conformancev1.ConformancePayload{
+			payload(0, bidi(0, "", "")), payload(1, bidi(1, "", "")), payload(2, bidi(2, "", ""))}}},
+	}
+	var out []*c03Expected
+	for _, s := range shapes {
+		out = append(out, &c03Expected{ID: "unknown:shape=" + s.name, Source: "unknown-fields", PairQuick: 1, PairFull: 2,
+			Def: &conformancev1.TestCase{Request: &conformancev1.ClientCompatRequest{StreamType: s.st}, ExpectedResponse: s.exp}})
+	}
+	return out
 }
 
 // ---------------------------------------------------------------------------
@@ -1778,6 +2150,8 @@ func TestVerifC03(t *testing.T) {
 		"255/256/257, 1023/1024/1025, 4095/4096/4097, 65535/65536/65537 bytes long; deviations at the first, middle and last byte and one byte dropped / appended at the end); " +
 		"the size-limit expectations come last and, in the quick tier, get only the identity and (unary, full-duplex) the payload / echoed-request deviations. " +
 		"code routes: every E with an error again under other_allowed_error_codes lists of 1 and 3 (thorough: 1, 2, 3) alternatives and its own list, the result reporting the primary code / each alternative, x every leniency rewrite and deviation (the 200 KB expectations in the thorough tier only). " +
+		"composed leniencies (primary code, the definition's own list): ordered pairs (A then B) of the leniency rewrites of one E, not two of the same kind at the same position; quick: representatives (per kind and block of the result the first position with its first variant and the last position with its last variant) on the corpus, the grammar expectations with at most one non-base coordinate, the merged-metadata family and the unknown-field family; thorough: every ordered pair on the corpus and the quick grammar, representatives on the grammar expectations with three non-base coordinates. " +
+		"unknown fields: every echoed request (payloads at every position, RequestInfo error detail) gets a field unknown to its schema behind it (varint, bytes, fixed32; thorough also fixed64, zero varint), in front of it, and inside its nested messages (quick: the first two and the last; thorough: all); the unknown-field family (8 expectations: unary, unary error detail, client-stream error detail, three full-duplex responses; requests with unknown fields at the top / in the response definition / in a header of it, and without) adds 'unknown fields dropped' (all, per place). " +
 		"two-call histories (run first): every ordered pair of comparisons (place: response header, trailer, echoed request header, echoed query parameter) x (expected value list, reported value list) over 10 (thorough 16) value-list shapes with commas, edge blanks, empty and zero values, tokens shared inside a history and never reused; the second verdict must equal the fresh-state verdict. " +
 		"distinct_nontrivial counts (E, code route, kind, position, variant) tuples whose rewritten actual result differs (proto.Equal) from E, and histories; identity pairs are evaluated but not counted."
 
@@ -1830,10 +2204,12 @@ func TestVerifC03(t *testing.T) {
 		}
 	}
 	sized := c03Sized()
-	all = append(append(append(all, grammar...), sized...), big...)
+	unknown := c03UnknownFamily()
+	all = append(append(append(append(all, grammar...), unknown...), sized...), big...)
 	if r.Shard == 0 {
 		r.Count("corpus_size_limit_expected", int64(len(big)))
 		r.Count("sized_expected", int64(len(sized)))
+		r.Count("unknown_field_expected", int64(len(unknown)))
 	}
 
 	deadline := rep.Deadline()
@@ -1892,6 +2268,9 @@ func TestVerifC03(t *testing.T) {
 			return
 		}
 		sampleKey := rp.Class + ":" + rp.Kind
+		if first, _, composed := strings.Cut(rp.Kind, "&"); composed {
+			sampleKey = rp.Class + ":composed:" + first
+		}
 		if fr.Route > 0 {
 			sampleKey += ":alt"
 		}
@@ -1919,11 +2298,16 @@ func TestVerifC03(t *testing.T) {
 				r.Outcome("identity:pass")
 			}
 		case "leniency":
+			// (composed leniencies: one outcome class per first rewrite, the key names both)
+			class, what := rp.Kind, "a documented leniency is rejected"
+			if first, _, composed := strings.Cut(rp.Kind, "&"); composed {
+				class, what = "composed:"+first+"&...", "a result that agrees with the expected one up to two documented leniencies (the first rewrite applied, then the second) is rejected"
+			}
 			if failure != nil {
-				r.Outcome("leniency:" + rp.Kind + via + ":fail")
-				r.Violate("leniency-rejected:"+rp.Kind+via, describe("a documented leniency is rejected"), rp)
+				r.Outcome("leniency:" + class + via + ":fail")
+				r.Violate("leniency-rejected:"+rp.Kind+via, describe(what), rp)
 			} else {
-				r.Outcome("leniency:" + rp.Kind + via + ":pass")
+				r.Outcome("leniency:" + class + via + ":pass")
 			}
 		case "deviation":
 			if failure == nil {
@@ -1965,6 +2349,18 @@ outer:
 				continue
 			}
 			muts := c03Mutations(fr.Def)
+			if fi == 0 && !c03IsBig(e.Def) {
+				// composed leniencies, with the definition as it is and the primary code
+				level := e.PairQuick
+				if c03Full() {
+					level = e.PairFull
+				}
+				pairs := c03LeniencyPairs(muts, level)
+				if r.Shard == 0 {
+					r.Count("leniency_pairs", int64(len(pairs)))
+				}
+				muts = append(muts, pairs...)
+			}
 			if bigQuick {
 				// quick tier: one assert on a 200 KB expectation costs about a second of CPU, so only the
 				// rewrites that touch the padded messages are run there, on the unary and the full-duplex
@@ -1973,7 +2369,7 @@ outer:
 				stKept := st == conformancev1.StreamType_STREAM_TYPE_UNARY || st == conformancev1.StreamType_STREAM_TYPE_FULL_DUPLEX_BIDI_STREAM
 				kept := muts[:0]
 				for _, m := range muts {
-					if stKept && (strings.HasPrefix(m.Kind, "payload-") || strings.HasPrefix(m.Kind, "echoed-request-")) {
+					if stKept && (strings.HasPrefix(m.Kind, "payload-") || strings.HasPrefix(m.Kind, "echoed-request-")) && m.Kind != "echoed-request-unknown-field" {
 						kept = append(kept, m)
 					} else {
 						skippedBig++
